@@ -234,3 +234,7 @@ func constInt64(k *types.Const) (int64, bool) {
 }
 
 type typesSignature = types.Signature
+
+type typesVar = types.Var
+type typesTuple = types.Tuple
+type typesFunc = types.Func
